@@ -29,6 +29,9 @@ type CertSpec struct {
 	NotAfter  time.Time
 	IsCA      bool
 	NoCAFlag  bool // issue a "CA" without the CA basic constraint
+	// CA certificates only: X.509 name constraints (permitted DNS subtrees) and a path length of zero
+	PermittedDNS   []string
+	MaxPathLenZero bool
 }
 
 // CA is a certificate authority (root or intermediate) made by the harness.
@@ -68,6 +71,12 @@ func template(s CertSpec) *x509.Certificate {
 		if !s.NoCAFlag {
 			t.IsCA = true
 			t.BasicConstraintsValid = true
+		}
+		if len(s.PermittedDNS) > 0 {
+			t.PermittedDNSDomains, t.PermittedDNSDomainsCritical = s.PermittedDNS, true
+		}
+		if s.MaxPathLenZero {
+			t.MaxPathLen, t.MaxPathLenZero = 0, true
 		}
 	} else {
 		t.KeyUsage = x509.KeyUsageDigitalSignature
